@@ -229,8 +229,8 @@ package blob
 
 // ---- Put / Link / Get / Resolve / Import / Unlink -----------------------------------------------
 
-//@ extern func (*DiskCache).manifestPath
-//@   modifies nothing
+// (manifestPath: the extern view `modifies nothing` used by Link/Resolve/Unlink is kept; its body is
+// checked by C13 against the clauses in the block "manifestPath: case-insensitive lookup" at the end of this file)
 //@ extern func os.MkdirAll
 //@   modifies nothing
 //@ extern func os.(*File).Stat
@@ -464,3 +464,97 @@ package blob
 //@   assert-at call path/filepath.Join #1 : len(arg0) == 2 && arg0[0] == c.dir && arg0[1] == l
 // (old(maybe): seen from inside the closure the captured result variable, also a *string, may alias maybe)
 //@   ensures result <==> (arg1 == nil && !sfoldeq(old(maybe), arg0))
+// ---- C13 (added after seeded change C13-seed4; lnk/lnkbad/lnkclear: see the manifestPath block below) ----
+// Position protocol of the scan: c.ghost_scanpos counts the items of the listing handed to the body so
+// far. Protocol preconditions (the body is only called by the iterator; listed as the glue assumption
+// of C13): this call gets item number ghost_scanpos. Invariant, required and re-established by every
+// call that lets the scan go on: none of the items seen so far is an error item or matches.
+//@   requires 0 <= c.ghost_scanpos
+//@   requires (arg1 != nil <==> lnkbad(c.dir, c.ghost_scanpos)) && (arg1 == nil ==> arg0 == lnk(c.dir, c.ghost_scanpos))
+//@   requires lnkclear(c.dir, maybe, c.ghost_scanpos)
+// (counted where the item is looked at - an error item ends the scan - and not with `ghost-at entry`: the engine's
+// entry snapshot shares its heap with the first block, so old() would see an assignment made there)
+//@   ghost-at call strings.EqualFold #1 : c.ghost_scanpos := c.ghost_scanpos + 1
+//@   ensures arg1 == nil ==> c.ghost_scanpos == old(c.ghost_scanpos) + 1
+//@   ensures result ==> lnkclear(c.dir, old(maybe), c.ghost_scanpos)
+// the link answered with is the FIRST item of the listing that matches: no earlier item did
+//@   assert-at call path/filepath.Join #1 : l == lnk(c.dir, c.ghost_scanpos - 1) && !lnkbad(c.dir, c.ghost_scanpos - 1) && lnkclear(c.dir, maybe, c.ghost_scanpos - 1)
+// how the loop was left is recorded for the parent: 0 go on, 1 error item, 2 match
+//@   ensures jump$1 == ite(result, 0, ite(arg1 != nil, 1, 2))
+
+// ---- manifestPath: case-insensitive lookup (C13: "names differing only in letter case address the
+// ---- same model"; added after seeded change C13-seed4) -------------------------------------------
+// What the property needs of manifestPath: the path answered for a name is a function of the
+// case-folded wanted path and of the links on disk, the same for every spelling: the FIRST link (in
+// the order c.links() yields them) that equals Join("manifests", nameToPath(name)) under case
+// folding, or - only when NO link on disk matches - the canonical Join(c.dir, that path). Any answer
+// that does not come out of the scan (an exact-spelling shortcut, a remembered path, a skip of the
+// scan for "already canonical" names) gives two spellings of one name different files as soon as two
+// links differing only in case exist.
+// Model of the directory listing (uninterpreted; file-system state, assumed fixed during one call):
+// c.links() yields the items 0 .. nlnk(dir)-1; item k is the link lnk(dir, k), or an error item
+// (lnkbad(dir, k): the glob failed). lnkclear(dir, m, p): none of the items 0..p-1 is an error or
+// equals m under case folding. blid / blstr: identity casts string <-> ghost integer (as nmid / nmstr
+// in the names contract).
+//@ spec func lnk(dir string, k int) string
+//@ spec func nlnk(dir string) int
+//@ spec func lnkbad(dir string, k int) bool
+//@ spec func lnkclear(dir string, m string, p int) bool = forall j int :: 0 <= j && j < p ==> !lnkbad(dir, j) && !sfoldeq(m, lnk(dir, j))
+//@ spec func blid(s string) int = s
+//@ spec func blstr(i int) string = i
+
+//@ extern func (*DiskCache).links
+//@   modifies nothing
+
+// the listing itself (body of the iterator c.links() returns): the items are the matches of ONE glob
+// over the whole manifests tree below c.dir - every host, namespace, model and tag directory, whatever
+// its spelling (a pattern narrowed to the wanted spelling of a directory would be an exact-case
+// lookup) -, handed to the loop body in the order Glob returned them, each exactly once, with a nil
+// error, and nothing is yielded after the body returned false; a failed glob is one error item.
+// (`call #3` / `call #5`: the two calls of the function parameter yield, which has no name the selector could use; before-selectors also count the builtin len(manifests) as #4, after-selectors do not: the same yield call is `call #5` / `after call #4`)
+//@ func (*DiskCache).links$1
+//@   assert-at call os.DirFS #1 : arg0 == c.dir
+//@   assert-at call io/fs.Glob #1 : arg0 == fsys && arg1 == "manifests/*/*/*/*"
+//@   ghost-at entry : ghost_stopped := 0
+//@   ghost-at entry : ghost_yielded := 0
+//@   loop 1 invariant ghost_stopped == 0 && ghost_yielded == rangeindex + 1 && err == nil
+//@   assert-at call #3 : arg0 == "" && arg1 == err && err != nil && ghost_yielded == 0
+//@   assert-at call #5 : ghost_stopped == 0 && 0 <= ghost_yielded && ghost_yielded < len(manifests) && arg0 == manifests[ghost_yielded] && arg1 == nil
+//@   ghost-at after call #4 : ghost_yielded := ghost_yielded + 1
+//@   ghost-at after call #4 : ghost_stopped := ite(result, 0, 1)
+// the iterator returns only after the body said stop, after the single error item, or after ALL matches were yielded
+//@   assert-at return : err != nil || ghost_stopped == 1 || ghost_yielded == len(manifests)
+
+//@ extern func (*DiskCache).manifestPath
+//@   modifies nothing
+//@   opt frame assume      -- the frame stays trusted as before (extern view); the call of the iterator value has no contract
+//@   ghost-at entry : ghost_scanned := 0
+//@   ghost-at entry : ghost_exit := 0 - 1
+//@   ghost-at entry : ghost_maybe := 0
+//@   assert-at call nameToPath #1 : arg0 == name
+//@   assert-at call path/filepath.Join #1 : len(arg0) == 2 && arg0[0] == "manifests" && arg0[1] == np
+//@   ghost-at after call path/filepath.Join #1 : ghost_maybe := blid(result)
+//@   assert-at call links #1 : arg0 == c
+// the wanted path the loop body compares with is that join, unchanged, and the scan starts at item 0
+//@   assert-at call iter.(Seq2) #1 : maybe == blstr(ghost_maybe)
+//@   ghost-at call iter.(Seq2) #1 : c.ghost_scanpos := 0
+//@   ghost-at after call iter.(Seq2) #1 : ghost_scanned := 1
+//@   ghost-at after call iter.(Seq2) #1 : ghost_exit := jump$1
+// Glue (listed assumption, props/C13.json): the value c.links() returns only calls the loop body
+// manifestPath$1, one call after the other, with the items 0, 1, 2, ... of the listing, stops after the
+// first call that returns false, and returns normally once the items are exhausted. Every clause below
+// is then a consequence of the VERIFIED contract of manifestPath$1 (its postconditions that are also
+// its preconditions): jump$1 is what the body last stored; if the loop was not left by the body
+// (jump$1 == 0), every item went through the body and each call returned true.
+//@   assume-at after call iter.(Seq2) #1 : jump$1 == 0 || jump$1 == 1 || jump$1 == 2
+//@   assume-at after call iter.(Seq2) #1 : jump$1 == 0 ==> c.ghost_scanpos == nlnk(c.dir) && lnkclear(c.dir, maybe, c.ghost_scanpos)
+// Every return (stated without ordinal: a return added anywhere is covered):
+// a path (nil error) is answered only after the scan of the links - nothing decided before it, by
+// whatever shortcut, can know which spelling the first matching link has ...
+//@   assert-at return : result.1 == nil ==> ghost_scanned == 1
+// ... before the scan there is only the refusal of nameToPath, without a path ...
+//@   assert-at return : ghost_scanned == 0 ==> result.0 == ""
+// ... and when the scan was not ended by the loop body (exit 1: error item, exit 2: first match - both
+// answered by manifestPath$1, see its contract), no link on disk matches, and the answer is the
+// canonical path: the join of c.dir and the wanted path, with a nil error
+//@   assert-at return : ghost_scanned == 1 && ghost_exit == 0 ==> lnkclear(c.dir, blstr(ghost_maybe), nlnk(c.dir)) && result.0 == fpjoin2(c.dir, blstr(ghost_maybe)) && result.1 == nil
